@@ -104,7 +104,16 @@ def run_spectral(case, bct, REC):
     ev = np.linalg.eigvalsh(A)
     repeated = bool(np.any(np.diff(np.sort(ev)) < 1e-8))
     cls = ('repeated_eigenvalue',) if repeated else ('simple_spectrum',)
-    for X, wname in ((A, 'bin'), (G.weigh(A, 'real', case['ws'], True), 'real')):
+    variants = [(A, 'bin'), (G.weigh(A, 'real', case['ws'], True), 'real')]
+    if repeated and n >= 3:
+        # one weight on every connection (the spectrum stays degenerate) and the upper triangle one ulp away from the
+        # lower in a few cells: undirected for every purpose, not bit-for-bit symmetric
+        U = A * 0.1
+        iu, ju = np.where(np.triu(A, 1))
+        for e in range(0, len(iu), max(1, len(iu) // 3)):
+            U[iu[e], ju[e]] = np.nextafter(U[iu[e], ju[e]], 1.0)
+        variants.append((U, 'const_ulp_asymmetric'))
+    for X, wname in variants:
         REC.tag(PROP, 'exec')
         det = {'A': X}
         ok, Cs = call(REC, PROP, 'subgraph_centrality', bct.subgraph_centrality, X)
